@@ -1293,13 +1293,27 @@ def check_get_function_twice(case):
     tolk = TOLK if backend == "numpy" else TOLK_JIT
     key = f"get_function-repeated:{backend}:{case['cls']}"
 
-    def evaluate_fn(fn, sa, what):
+    def call(fn, args, what, fname, history):
+        try:
+            return fn(*args)
+        except Exception as e:  # noqa: BLE001
+            if re.search(r"name 'f'", str(e)):
+                raise Violation(
+                    f"{what}: the function for `{form}` requested with user_funcs={{'f': {fname}}} fails with "
+                    f"{type(e).__name__}: {str(e).strip().splitlines()[0][:200]} (f is not bound); requests on this "
+                    f"expression object so far: {history}", key=key + ":user-function-not-bound") from None
+
+            def reraise(exc=e):
+                raise exc
+
+            return run_generated(reraise, form, what)  # classification of the other exceptions
+
+    def evaluate_fn(fn, sa, what, fname, history):
         args = [x, y][:len(vs)]
         if sa:
-            stacked = np.array(args, dtype=float)
-            got = run_generated(lambda: fn(stacked), form, what)
+            got = call(fn, [np.array(args, dtype=float)], what, fname, history)
         else:
-            got = run_generated(lambda: fn(*args), form, what)
+            got = call(fn, args, what, fname, history)
         if backend == "numba" and not scalar:
             got = np.array(got)  # (nested) lists
         got = np.asarray(got)
@@ -1343,10 +1357,10 @@ def check_get_function_twice(case):
         fn = request(fname, bool(sa))
         history.append([fname, bool(sa)])
         fns.append(fn)
-        judge(evaluate_fn(fn, sa, f"{backend}/request {k}"), fname, f"request {k}", history)
+        judge(evaluate_fn(fn, sa, f"{backend}/request {k}", fname, history), fname, f"request {k}", history)
     # the functions handed out earlier keep their meaning
     for k, ((fname, sa), fn) in enumerate(zip(case["requests"], fns)):
-        judge(evaluate_fn(fn, sa, f"{backend}/request {k} (again)"), fname,
+        judge(evaluate_fn(fn, sa, f"{backend}/request {k} (again)", fname, history), fname,
               f"request {k}, evaluated after all requests", history)
     labs = [f"cls:{case['cls']}", f"form:{form}", f"requests:{len(case['requests'])}", f"layout:{case['layout']}",
             f"style:{case['style']}", "single_arg" if case["requests"][0][1] else "separate-args",
